@@ -207,6 +207,8 @@ CORNERS = [
     dict(name="tiny-sensitivities-tight-bisection-vv", obj="invsum", tol=1e-15, fs=1e-9, bounds="vv"),
     dict(name="empty-variable-signal-in-the-middle", sizes=[3, 0, 2], kinds=["vec", "vec", "vec"], via="direct"),
     dict(name="empty-variable-signal-first", sizes=[0, 4], kinds=["vec", "vec"], via="direct", obj="invsum"),
+    dict(name="single-precision-design", sizes=[4, 3], kinds=["vec", "vec"], share="float32", via="direct", obj="invsum", topo="single", bounds="ss"),
+    dict(name="single-precision-design-vv", sizes=[5], kinds=["vec"], share="float32", via="direct", obj="invsum", topo="single", bounds="vv", hist="conv"),
     dict(name="integer-typed-initial-design", sizes=[4, 2], kinds=["vec", "vec"], bounds="default", share="int-ones", via="direct", obj="invsum"),
 ]
 
@@ -308,6 +310,7 @@ def _classes():
 
         def _response(self, *args):
             self.shapes = [np.shape(a) for a in args]
+            self.single = [getattr(a, "dtype", None) == np.float32 for a in args]
             y = np.concatenate([np.ravel(np.asarray(a, dtype=float)) for a in args])
             f, self.g = _kernel(self.P, self.idx, y)
             f = f + self.off
@@ -319,6 +322,8 @@ def _classes():
                 n = int(np.prod(sh, dtype=int))
                 seg = np.array(df * self.g[k:k + n], dtype=float)
                 k += n
+                if self.single[len(out)]:
+                    seg = seg.astype(np.float32)      # (numpy operations on a float32 state give float32 sensitivities)
                 out.append(float(seg[0]) if sh == () else seg.reshape(sh))
             return out
 
@@ -489,6 +494,13 @@ def run_case(case, ctx):
         share = None
     if share == "int-ones":
         x0 = np.ones(n)                                # given to the signals as an integer-typed array
+    if share == "float32" and not (case["via"] == "direct" and all(k in ("vec", "mat") for k in case["kinds"])):
+        share = None
+    if share == "float32":
+        # a design stored in single precision (a density field read from a float32 file): bounds, move limits and the prescribed volume
+        # are the user's doubles, and hold to double precision
+        x0 = np.clip(x0.astype(np.float32).astype(float), lo, hi)
+        x0 = np.where(x0.astype(np.float32).astype(float) == x0, x0, (lo + 0.5 * (hi - lo)).astype(np.float32).astype(float))
 
     # ---------------------------------------------------------------- objective
     kind = case["obj"]
@@ -558,6 +570,8 @@ def run_case(case, ctx):
             st = sigs[0].state
         if share == "int-ones":
             st = np.asarray(st).astype(int)
+        if share == "float32":
+            st = np.asarray(st).astype(np.float32)
         sigs.append(pym.Signal(f"v{i}", st))
     log = []
     mods = [C["rec"](sigs, [], log)]
